@@ -24,7 +24,7 @@ META = {
         "thorough": {"evaluations": 300000, "distinct_nontrivial": 8000, "tables": {"array/reshape": 100000, "routine/forward": 40000}},
     },
     "exhaustive": {"quick": False, "thorough": False},
-    "wall": {"quick": 300, "thorough": 1500},
+    "wall": {"quick": 900, "thorough": 1500},
 }
 
 
